@@ -225,6 +225,49 @@ Example C02_heap_nonvacuous :
   end.
 Proof. vm_compute. repeat split. Qed.
 
+(* ====================================================================================== *)
+(* set_data / rename DO re-key (audit C02 F1: every exactness theorem above is relative to the node's CURRENT
+   data_id; a set_data that silently did nothing would satisfy them all).  When the call succeeds and the new
+   id x differs from the old one: the node - and, with with_clones=True, its whole clone group - carries x, is
+   found under x, and is no longer found under the old id. *)
+From NT Require Import PreserveRelabel RefusalMore.
+
+Theorem C02_set_data_rekeys : forall w ti n d e wc r w', WFw w -> step w (OSetData ti n d e wc) = (Ok r, w') ->
+  exists t s did', get_tree w ti = Some t /\ get_node n (forest_of t) = Some s /\
+    sd_did' t (sd_new_data s d) e = Some did' /\
+    forall x, sd_new_did s did' = Some x ->
+      x <> rdid s /\
+      exists t', get_tree w' ti = Some t' /\
+        let cur := idx_get (rdid s) (idx t) in
+        let group := if Nat.ltb 1 (length cur) && (match wc with Some true => true | _ => false end) then cur else [n] in
+        In n group /\
+        forall m, In m group ->
+          did_of m (forest_of t') = Some x /\ In m (lk_find_all_did t' x) /\ ~ In m (lk_find_all_did t' (rdid s)).
+Proof. exact set_data_rekeys. Qed.
+Print Assumptions C02_set_data_rekeys.
+
+(* the plain case spelled out: set_data(data_id=x) on a node whose id is not x *)
+Theorem C02_set_data_id : forall w ti n x wc r w' t s, WFw w -> get_tree w ti = Some t -> get_node n (forest_of t) = Some s ->
+  x <> rdid s -> step w (OSetData ti n None (Some x) wc) = (Ok r, w') ->
+  exists t', get_tree w' ti = Some t' /\ did_of n (forest_of t') = Some x /\
+             In n (lk_find_all_did t' x) /\ ~ In n (lk_find_all_did t' (rdid s)).
+Proof.
+  intros w ti n x wc r w' t s W Gt Gn Nx H. destruct (set_data_rekeys w ti n None (Some x) wc r w' W H) as (t0 & s0 & did' & Gt0 & Gn0 & Ed & K).
+  assert (t0 = t) by congruence. subst t0. assert (s0 = s) by congruence. subst s0. cbn in Ed. injection Ed as <-.
+  assert (Ex : sd_new_did s (Some x) = Some x).
+  { unfold sd_new_did. destruct (did_eqb x (rdid s)) eqn:E; [apply did_eqb_eq in E; contradiction|reflexivity]. }
+  destruct (K x Ex) as (_ & t' & Gt' & Gin & Hall). exists t'. split; [exact Gt'|]. exact (Hall n Gin).
+Qed.
+Print Assumptions C02_set_data_id.
+
+Example C02_set_data_rekeys_nonvacuous :
+  let w := run [ONewTree false None; OAdd 0 0 (c02_dd 10) None None BNone] empty_world in
+  let w' := snd (step w (OSetData 0 1 None (Some (DInt 77)) None)) in
+  fst (step w (OSetData 0 1 None (Some (DInt 77)) None)) = Ok [] /\
+  lk_find_all_did (nth 0 (trees w') (TS [] [] [] false None)) (DInt 77) = [1] /\
+  lk_find_all_did (nth 0 (trees w') (TS [] [] [] false None)) (DInt 10) = [].
+Proof. vm_compute. repeat split. Qed.
+
 (* ==== PART WRAP: common.DictWrapper, the data flavour whose lookups go by the IDENTITY of a wrapped dict (model
    theories/Forest/MiscWrap.v, correspondence Cases/CaseMiscWrap.v, harness parts_misc.WRAP).  A [world] is the list of
    dict objects (index = identity, value = content) and the list of wrappers (value = identity of the dict in `_dict`);
